@@ -283,6 +283,8 @@ class ExprMixin:
                 return self.noneness(f)
         if v.kind == "call" and v.args[0] in ("popitem", "items", "keys", "values", "copy", "encode", "decode", "hexdigest") and v.args[1] is not None:
             return False  # these container / string methods never return None
+        if v.kind == "unknown" and v.args and v.args[0] == "exc":
+            return False  # type / value / traceback of the exception being propagated
         if v.kind == "phi":
             ts = {self.noneness(x) for x in v.args}
             return ts.pop() if len(ts) == 1 else None
@@ -418,29 +420,40 @@ class ExprMixin:
         for c in m.class_order:
             if c.module.name == ABC_MOD or not c.is_subclass_of("SyncedCollection"):
                 continue
-            f = c.methods.get("__init__")
-            if f is None:
+            f0 = c.methods.get("__init__")
+            if f0 is None:
                 continue
-            root_branches = {}
-            for n in ast.walk(f.node):
-                if isinstance(n, ast.If):
-                    for tag_body, other in ((n.body, n.orelse), (n.orelse, n.body)):
-                        for s in tag_body:
-                            if (
-                                isinstance(s, ast.Assign)
-                                and isinstance(s.value, ast.Constant)
-                                and s.value.value is None
-                                and any(isinstance(t, ast.Attribute) and t.attr == "_root" for t in s.targets)
-                            ):
-                                for x in tag_body:
-                                    root_branches[id(x)] = "root"
-                                for x in other:
-                                    root_branches[id(x)] = "nested"
-            for n in ast.walk(f.node):
-                if isinstance(n, ast.Assign):
-                    for t in n.targets:
-                        if isinstance(t, ast.Attribute) and isinstance(t.value, ast.Name) and t.value.id == "self":
-                            inits.setdefault(t.attr, []).append((c, f, n.value, root_branches.get(id(n))))
+            # the constructor and the private steps it is split into (self._step(...) called from __init__)
+            ctor_funcs = [f0]
+            for depth_ in range(2):
+                for fx in list(ctor_funcs):
+                    for n in ast.walk(fx.node):
+                        if isinstance(n, ast.Call) and isinstance(n.func, ast.Attribute) and isinstance(n.func.value, ast.Name) and n.func.value.id == "self" and n.func.attr.startswith("_") and not n.func.attr.startswith("__"):
+                            hv = m.lookup(c, n.func.attr)[1]
+                            hf = getattr(hv, "func", None)
+                            if hf is not None and hf not in ctor_funcs and hf.name not in ("_validate", "_from_base", "_load", "_save", "_update", "_register_validators"):
+                                ctor_funcs.append(hf)
+            for f in ctor_funcs:
+                root_branches = {}
+                for n in ast.walk(f.node):
+                    if isinstance(n, ast.If):
+                        for tag_body, other in ((n.body, n.orelse), (n.orelse, n.body)):
+                            for s in tag_body:
+                                if (
+                                    isinstance(s, ast.Assign)
+                                    and isinstance(s.value, ast.Constant)
+                                    and s.value.value is None
+                                    and any(isinstance(t, ast.Attribute) and t.attr == "_root" for t in s.targets)
+                                ):
+                                    for x in tag_body:
+                                        root_branches[id(x)] = "root"
+                                    for x in other:
+                                        root_branches[id(x)] = "nested"
+                for n in ast.walk(f.node):
+                    if isinstance(n, ast.Assign):
+                        for t in n.targets:
+                            if isinstance(t, ast.Attribute) and isinstance(t.value, ast.Name) and t.value.id == "self":
+                                inits.setdefault(t.attr, []).append((c, f, n.value, root_branches.get(id(n))))
         m._field_inits = inits
         if "_root" not in inits or not any(tag == "root" for (_, _, _, tag) in inits.get("_suspend_sync", [])):
             raise AnalysisError("anchor: SyncedCollection.__init__ no longer has the root / nested initialisation branches (self._root = None ...)")
@@ -713,8 +726,14 @@ class ExprMixin:
         return Val("unknown", "lambda"), preds
 
     def ev_Yield(self, e, preds):
+        v = NONE
         if e.value is not None:
             v, preds = self.ev(e.value, preds)
+        hook = getattr(self.fr, "yield_hook", None)
+        if hook is not None:
+            # generator driven by a `with` statement: the body of that statement runs here
+            return NONE, hook(v, preds)
+        if e.value is not None:
             self.fr.ret_vals.append(Val("gen", v))
         return NONE, preds
 
@@ -1228,6 +1247,13 @@ class ExprMixin:
             if a.kind == "data":
                 preds = self.touch_read(a, short, preds)
                 return Val("call", short, None, tuple(args), ()), preds
+            if short == "next" and a.kind == "comp":
+                # next((elt for x in it if cond), default): the first produced element, or the default
+                elt = a.args[1]
+                if len(args) >= 2:
+                    return self.merge_vals([elt, args[1]]), preds
+                o = self.node("call_ext", preds, may_raise=True, exc=("StopIteration",), callee="builtins.next", recv=None, args=tuple(args), kwargs=(), result=None)
+                return elt, o
             if a.kind == "comp" or a.kind == "call" and a.args[0] == "iter":
                 return Val("call", short, None, tuple(args), ()), preds
             ci = self.as_inst(a) if short in ("repr", "str") else None
